@@ -851,6 +851,7 @@ let handle_accept fields =
       if t <> "1" || b <> "1" then begin
         if Accept.is_let ni || Accept.is_let nj then known_hit "accept" "C16.let_context" input
         else if Accept.k_c16 ni nj then known_hit "accept" "C16.assignment_glues_operator" input
+        else if t = "1" && Accept.is_anon_block nj then known_hit "accept" "C16.trailing_anon_block" input
         else oracle_fail "accept" input "FAIL C16: the concatenation does not parse to the statements of its parts"
       end
     end
